@@ -124,9 +124,9 @@ def run(ctx):
         'secret values are functions of the compared secret inputs (version, PRF hash, EMS flag, key exchange, group, PSK, HRR) and the transcript',
         'the byte length of the ClientHello answering a HelloRetryRequest is a measured input of the model (cl_hello2_len)',
     ]
-    n_random = 420 if quick else 6000
+    n_random = 300 if quick else 6000
     rng = ctx.rng
-    cases = U.fixed_cases() + [U.gen_case(rng, i) for i in range(n_random)]
+    cases = U.fixed_cases(quick) + [U.gen_case(rng, i) for i in range(n_random)]
     seeds = [rng.randrange(1 << 30) for _ in cases]
     t0 = time.time()
     with Pool(vlib.NPROC) as pool:
